@@ -69,8 +69,12 @@ def base_model(E, sym_reactions=("R1",), sym_coef=True, groups=True):
     m.add_reactions(list(rs.values()))
     if DEGENERATE[0]:
         # degenerate but legal members: a reaction without metabolites, a metabolite that takes part in no reaction
-        m.add_reactions([Reaction("EMPTY", name="rxn EMPTY", lower_bound=0, upper_bound=10)])
+        empty = Reaction("EMPTY", name="rxn EMPTY", lower_bound=0, upper_bound=10)
+        m.add_reactions([empty])
         m.add_metabolites([Metabolite("LONE", compartment="c", name="met LONE")])
+        # ... and a gene that no reaction uses (what is left in model.genes once the last rule naming it is rewritten)
+        empty.gene_reaction_rule = "g_free"
+        empty.gene_reaction_rule = ""
     for rid in sym_reactions:
         r = m.reactions.get_by_id(rid)
         lb = E.real("lb_" + rid, -B, B)
@@ -81,6 +85,8 @@ def base_model(E, sym_reactions=("R1",), sym_coef=True, groups=True):
     if groups:
         g = Group("G1", name="group one", members=[m.reactions.R1, m.metabolites.A, m.genes.g1])
         m.add_groups([g])
+        if DEGENERATE[0]:
+            g.add_members([m.metabolites.LONE, m.genes.g_free])
     m.compartments = {"c": "cytosol"}
     return m
 
@@ -660,7 +666,8 @@ def op_add_model_metabolites(E, m, S):
 def op_remove_metabolites(E, m, S):
     if not len(m.metabolites):
         return
-    met = m.metabolites[E.choice(S.tag("met"), min(2, len(m.metabolites)))]
+    cands = list(m.metabolites[:2]) + ([m.metabolites.LONE] if "LONE" in m.metabolites else [])
+    met = cands[E.choice(S.tag("met"), len(cands))]
     destructive = E.flag(S.tag("destructive"))
     via = E.pick(S.tag("via"), ["model", "remove_from_model"])
     if via == "model":
@@ -732,7 +739,13 @@ def op_rename_genes(E, m, S):
     if not len(m.genes):
         return
     g = m.genes[0]
-    to = E.pick(S.tag("to"), ["new", "existing", "two-onto-one-new"])
+    to = E.pick(S.tag("to"), ["new", "existing", "two-onto-one-new", "unused-gene-to-new"])
+    if to == "unused-gene-to-new":
+        if "g_free" not in m.genes:
+            return
+        _try(S, "rename_genes", lambda: rename_genes(m, {"g_free": "g_free_renamed"}), g="g_free", to=to,
+             ref=lambda R: R.rename_gene("g_free", "g_free_renamed"))
+        return
     if to == "two-onto-one-new":
         if len(m.genes) < 2:
             return
